@@ -124,6 +124,10 @@ impl C16 {
             Ok(x) => x,
             Err(e) => return CaseOut::skip(src.to_string(), format!("oracle-error: {e}")),
         };
+        if nc == "limit:timeout" {
+            // the reference ran out of its wall-clock budget (loaded machine): inconclusive, not a difference
+            return CaseOut::skip(src.to_string(), "v8-timeout").with_labels(labels);
+        }
         if base.prints != np || base.completion.render() != nc {
             let k = base.prints.iter().zip(np.iter()).position(|(a, b)| a != b).unwrap_or(base.prints.len().min(np.len()));
             return CaseOut::fail(src.to_string(), "order: evaluate+run_jobs differs from V8", format!("first differing line {k}: boa={:?} v8={:?}\n--- boa\n{}\n--- v8\n{}\n=> {nc}", base.prints.get(k), np.get(k), base.render(), np.join("\n"))).with_labels(labels);
